@@ -783,6 +783,25 @@ impl Transformer {
     }
 }
 
+#[cfg(feature = "verif-hooks")]
+impl Transformer {
+    /// `write_root_svg` on a root element given as attribute pairs and an extent given
+    /// as (x1, y1, x2, y2); returns the bytes written.
+    pub fn verif_write_root_svg(
+        &self,
+        attrs: &[(String, String)],
+        bbox: Option<(f32, f32, f32, f32)>,
+    ) -> Result<Vec<u8>> {
+        let mut out: Vec<u8> = vec![];
+        self.write_root_svg(
+            OutputEvent::Start(SvgElement::new("svg", attrs)),
+            bbox.map(|b| BoundingBox::new(b.0, b.1, b.2, b.3)),
+            &mut out,
+        )?;
+        Ok(out)
+    }
+}
+
 // Helper function to indent all lines in a vector of strings
 fn indent_all(s: Vec<String>, indent: usize) -> Vec<String> {
     let mut result = vec![];
